@@ -410,6 +410,8 @@ func typeNameOf(v Value) string {
 		return x.Type
 	case Array:
 		return "array"
+	case jsonPathEq:
+		return "jsonpath"
 	}
 	return fmt.Sprintf("%T", v)
 }
